@@ -134,6 +134,11 @@ func runNode(events []string, props []string, args map[string]string) (res vx.Re
 				continue
 			}
 		}
+		if !s.st.f.frozen {
+			// The event's asynchronous consequences (the state machine's reaction, view shifts) write too: a crash point
+			// inside them stops the process here, not one event later with the stores failing in between.
+			s.drain(false)
+		}
 		crashedHere := s.st.f.frozen
 		if s.st.f.frozen {
 			n.stop()
